@@ -2127,7 +2127,11 @@ def normalise_local_lambdas(tree, known):
             uses = [x for st in outer.body if st is not g for x in ast.walk(st) if isinstance(x, ast.Name) and x.id == g.name]
             if not uses or any(not isinstance(x.ctx, ast.Load) for x in uses):
                 continue
-            lam = ast.Lambda(args=g.args, body=expr)
+            largs = _clone(g.args)
+            for a_ in largs.posonlyargs + largs.args + largs.kwonlyargs + ([largs.vararg] if largs.vararg else []) + ([largs.kwarg] if largs.kwarg else []):
+                a_.annotation = None  # a lambda's parameters carry no annotations
+                a_.type_comment = None
+            lam = ast.Lambda(args=largs, body=expr)
 
             class R(ast.NodeTransformer):
                 def visit_Name(self, node):
